@@ -2509,8 +2509,10 @@ class CompressedCertificate(Certificate):
 
         try:
             if self.compression_algo == CertificateCompressionAlgorithm.zlib:
-                decompressed_msg = zlib.decompress(
-                    compressed_msg, 15, expected_length)
+                # the third argument of zlib.decompress() is only the
+                # initial buffer size, not a limit: bound the output
+                decompressed_msg = zlib.decompressobj(15).decompress(
+                    compressed_msg, expected_length + 1)
             elif self.compression_algo == \
                     CertificateCompressionAlgorithm.brotli:
                 if compression_algo_impls["brotli_accepts_limit"]:
